@@ -4,7 +4,7 @@ CubicRoots::improve unrolled to three Newton steps are regenerated from /repo on
 for all real coefficients, that the returned values are exactly the roots (Cardano, Viete, exact degenerate forms) and that
 the refinement never increases the residual.  The real code (double) is run on a corpus and a seeded sweep and judged by an
 independent statement of the property evaluated in exact rational arithmetic (failing-input search, always on)."""
-import os, threading
+import os, re, threading
 from fractions import Fraction as Fr
 from vlib import guarded_main
 
@@ -18,6 +18,9 @@ CORPUS = [
     (1, 0, 4, 0), (1, 0, -4, 0), (2, 0, -8, 0), (1, -3, -1, 3),               # q = 0
     (1, 0, -3, 2), (1, 0, -3, -2), (1, 0, -12, 16), (1, -4, 5, -2),           # double root
     (1, 0, -7, 6), (1, -6, 11, -6), (1, 0, 1, 1), (1, 0, 3, -4), (-2, 1, 5, 3), (1, 0, -1, 0.3),
+    # exact double root r and simple root s with a2 != 0 and (r-s) divisible by 3 (tmp3 and the discriminant are exact in double)
+    (1, -6, 9, -4), (1, -9, 24, -16), (1, -3, 0, 4), (1, -6, 9, 0), (1, -3, 0, 0), (1, 3, 0, -4), (1, 0, -3, 2),
+    (1, -9, 24, -20), (1, -12, 45, -50), (1, 6, 9, 4), (1, 9, 24, 16), (2, -12, 18, -8), (2, 6, 0, -8),
     (1e100, 0, -7e100, 6e100), (1e-100, 0, 1e-100, 1e-100), (1e100, 0, 0, 8e100), (1e-100, -6e-100, 11e-100, -6e-100),
 ]
 
@@ -67,6 +70,20 @@ def judge(a, nb, xs):
     return None
 
 
+def lemma_at(path, line):
+    name = ""
+    try:
+        for i, l in enumerate(open(path), 1):
+            if i > line:
+                break
+            m = re.match(r"\s*(?:Lemma|Theorem|Corollary|Example)\s+([A-Za-z_][\w']*)", l)
+            if m:
+                name = m.group(1)
+    except OSError:
+        pass
+    return name
+
+
 def main(c):
     exe = c.cxx("trace", ["trace.cxx"])
     gen = os.path.join(c.work, "coq", "C10_gen.v")
@@ -76,6 +93,7 @@ def main(c):
         c.report("trace", "tracer failed on /repo's CubicRoots: " + (out + err)[-600:], {"stderr": err[-3000:]}, False)
         return
     nag = nskip = 0
+    leafcases, leaves_reached = [], set()
     for l in out.splitlines():
         if l.startswith("AGREE-FAIL"):
             c.report("agree:" + l[:200], "traced decision tree and double instantiation disagree: " + l, {"line": l}, True)
@@ -86,6 +104,12 @@ def main(c):
             c.count(1)
         elif l.startswith("LEAVES"):
             c.notes.append(l)
+        elif l.startswith("LEAFCASE"):
+            t = l.split()
+            leafcases.append(tuple(float(x) for x in t[2:6]))
+            leaves_reached.add(int(t[1]))
+        elif l.startswith("LEAFUNREACHED"):
+            c.notes.append("no small integer input reaches leaf %s of the decision tree of find_roots (|p| exactly equal to the threshold)" % l.split()[1])
     c.coverage["traces_validated_against_impl"] = nag
     c.trusted("engine S tracer (cxx/sym/sym.hxx path oracle + printer), g++ template instantiation of CubicRoots with Sym; "
               "CubicRoots::cbrt<Sym> is specialised to the real cube root (the double overload calls ::cbrt)",
@@ -94,6 +118,9 @@ def main(c):
     # ---- run the real code: corpus + seeded sweep
     rng = c.rng
     cases = [tuple(float(v) for v in t) for t in CORPUS]
+    ncorpus = len(cases)
+    cases += [t for t in leafcases if t not in cases]   # inputs derived from the path conditions of every leaf
+    c.notes.append("corpus: %d fixed inputs + %d inputs derived from the path conditions of %d leaves" % (ncorpus, len(cases) - ncorpus, len(leaves_reached)))
     n = c.pick(1500, 20000)
     for i in range(n):
         k = i % 5
@@ -154,8 +181,9 @@ def main(c):
             bad.append(key)
             if len(c.violations) >= 12 and not any(k.get("key") == key for k in c.known):
                 continue  # enough concrete failing inputs reported; the total is in the notes
-            if idx < 4:
-                f2_seen = True
+            A = [Fr(v) for v in a]
+            if A[2] * 3 * A[0] == A[1] * A[1] and "none of the returned values" in why:
+                f2_seen = True   # depressed form with p = 0: finding F2
             c.report(key, "CubicRoots on a3,a2,a1,a0 = %s returns nb=%d x=(%r, %r, %r) [refined: %r]: %s" % (
                 fmt(a), int(f[0]), f[1], f[2], f[3], g[1:], why),
                 {"coefficients": a, "find_roots": f, "exe_refined": g, "reason": why, "how": "props/C10/trace.cxx run"}, True)
@@ -188,6 +216,8 @@ def main(c):
             results.append(c.coq([props], timeout=600))
     c.coverage["checker_cmd"] = "coqc -Q coq/lib VLib -R <scratch> C10 C10_gen.v C10Spec.v C10Base.v C10ProofsA.v C10ProofsB.v C10ProofsC.v C10ProofsD.v %s %s (Coq 8.16.1)" % (p0, props)
     failed = [r for r in results if not r.ok]
+    for r in failed:   # name the lemma that contains the failing line (vlib only knows the theorems of Properties files)
+        r.failed = [(f, line, thm or lemma_at(os.path.join(c.work, "coq", f), line), msg) for (f, line, thm, msg) in r.failed]
     if failed:
         nthm = 8
         c.coverage["obligations"] = max(c.coverage["obligations"], nthm)
